@@ -60,11 +60,47 @@ def measured_values(fn, w):
     return out
 
 
-def analyse(mod, run, label):
+def has_checked_add(fn):
+    return any((i.get("callee") or "").startswith("llvm.sadd.with.overflow") for i in fn.calls())
+
+
+def mutable_bytes_param(fn):
+    return any(p["t"] == "i8*" and not p["pointee_const"] for p in fn.params)
+
+
+def inline_plan(mod):
+    """When the function that performs the checked add does not itself hold the mutable varint pointer, it is a helper that the add was
+    split into: the rules then apply to the nearest caller that does hold it, with that caller's file-local helpers inlined.
+    Returns the helper names to inline (empty on today's tree, where varintTaggedAdd / varintExternalAdd_ do everything themselves)."""
+    plan = set()
+    for fn in mod.defined():
+        if not has_checked_add(fn) or mutable_bytes_param(fn) or not fn.internal: continue
+        level = [fn]
+        for _ in range(3):
+            up = [g for g in mod.defined() if any(next(iter(g.calls(h.name)), None) is not None for h in level) and g not in level]
+            roots = [g for g in up if mutable_bytes_param(g)]
+            if roots:
+                for g in roots:
+                    # everything file-local that g reaches
+                    work = [g]; seen = set()
+                    while work:
+                        x = work.pop()
+                        for c in x.calls():
+                            h = mod.fn(c.get("callee") or "")
+                            if h is not None and h.internal and h.blocks and h.name not in seen and h is not g:
+                                seen.add(h.name); work.append(h)
+                    plan |= seen
+                break
+            level = [g for g in up if g.internal]
+            if not level: break
+    return sorted(plan)
+
+
+def analyse(mod, run, label, skip=()):
     w = World(mod); n = 0
     for fn in sorted(mod.defined(), key=lambda f: f.name):
         ovs = [i for i in fn.calls() if (i.get("callee") or "").startswith("llvm.sadd.with.overflow")]
-        if not ovs: continue
+        if not ovs or fn.name in skip: continue
         n += 1
         fn.dom()
         ov = ovs[0]
@@ -190,7 +226,7 @@ def analyse(mod, run, label):
             if x.op == "xor" and x.ops[1]["k"] == "int" and int(x.ops[1]["v"]) & 1: return norm_cond(x.ops[0], not truth, d + 1)
             if x.op == "and" and x.ops[1]["k"] == "int" and int(x.ops[1]["v"]) == 1: return norm_cond(x.ops[0], truth, d + 1)
             if x.op == "icmp":
-                if same(fn, x.ops[0], newW) or same(fn, x.ops[1], newW): return (("cmp", x), truth)
+                if (same(fn, x.ops[0], newW) and x.ops[1]["k"] != "int") or (same(fn, x.ops[1], newW) and x.ops[0]["k"] != "int"): return (("cmp", x), truth)      # new width against another width (a test against a constant is a validity test)
                 if x.ops[1]["k"] == "int" and int(x.ops[1]["v"]) == 0 and x["pred"] in ("ne", "eq"): return norm_cond(x.ops[0], truth if x["pred"] == "ne" else not truth, d + 1)
             return None
         def fits_when(ci, truth):
@@ -258,8 +294,12 @@ def run(tier):
     for cfg in configs_for(tier):
         mod = lib_module(cfg)
         for a in ("varintTaggedAddNoGrow", "varintTaggedAddGrow", "varintExternalAddNoGrow", "varintExternalAddGrow"): need_fn(mod, a)
-        n = analyse(mod, run, cfg)
-        per[cfg] = {"checked_add_functions": n}
+        plan = inline_plan(mod)
+        if plan:
+            run.observe("the checked add lives in file-local helpers without the varint pointer: analysed with %s inlined into their callers" % ", ".join(plan))
+            mod = lib_module(cfg, inline=tuple(plan))
+        n = analyse(mod, run, cfg, skip=set(plan))
+        per[cfg] = {"checked_add_functions": n, "helpers_inlined": plan}
         run.floor("functions using the checked add (%s)" % cfg, n, 2)
     controls(run)
     run.coverage.update({"configurations": per,
